@@ -571,7 +571,7 @@ def run(chk):
     if mism:
         chk.harness_error(f'regex translator disagrees with Python re: {mism[:3]}')
     run_jobs(chk, job_row, list(range(8)))
-    run_jobs(chk, job_lookup, [1, 2, 3])
+    run_jobs(chk, job_lookup, [1, 2, 3] if chk.tier == 'quick' else [1, 2, 3, 4, 5])
     run_jobs(chk, job_atom, [0])
     run_jobs(chk, job_history, ['value', 'inplace', 'unit'])
     run_jobs(chk, job_attenuation, ['float64', 'float32', 'int64'])
@@ -594,7 +594,7 @@ def run(chk):
         chk.violations.append(('C20:tables', path, out))
     else:
         chk.harness_error('table enumeration failed: ' + out[-300:])
-    chk.bounds = {'generic row': 'one attribute pair symbolic at a time (fields as z3 strings), others concrete', 'lookup': 'tables of 1..3 rows with symbolic names and a symbolic query',
+    chk.bounds = {'generic row': 'one attribute pair symbolic at a time (fields as z3 strings), others concrete', 'lookup': ('tables of 1..3 rows' if chk.tier == 'quick' else 'tables of 1..5 rows') + ' with symbolic names and a symbolic query; lookup-edit-lookup histories',
                   'tables': 'every row (thorough) / every 7th row (quick) of the three bundled files enumerated through the real lookups'}
     chk.stubs = ['float() of a field -> accepted iff the text is in the language of Python float literals (no digit-group underscores), value = uninterpreted real per field, unchanged by strip(); int() -> uninterpreted integer per field',
                  're.compile/match/fullmatch/search -> z3 regular expressions translated from the pattern by symex.symre (validated against Python re on sample strings)', 're.match of the isotope pattern -> z3 regex decomposition (digits* letters+ rest, maximal letters)',
